@@ -30,6 +30,10 @@ def _cfgs(tier="quick"):
                     continue
                 params = dict(params, n=8, h_max=4)
             out.append((label, configs.cfg(algo, part, K, configs.BOXES[box], **params)))
+            if algo == "VROOM":
+                # depth caps below the ranking depth floor(log2 n): the drawn cell may lie deeper than the cap
+                for n, hm in ((8, 2), (16, 2), (16, 3)):
+                    out.append(("VROOM_n%d_cap%d" % (n, hm), configs.cfg(algo, part, K, configs.BOXES[box], **dict(params, n=n, h_max=hm))))
     return out
 
 
